@@ -116,11 +116,7 @@ impl FunctionExpression for FormatIntFn {
 fn format_radix(x: i64, radix: u32) -> String {
     let mut result: VecDeque<char> = VecDeque::new();
 
-    let (mut x, negative) = if x < 0 {
-        (-x as u64, true)
-    } else {
-        (x as u64, false)
-    };
+    let (mut x, negative) = (x.unsigned_abs(), x < 0);
 
     loop {
         let m = (x % u64::from(radix)) as u32; // max of 35
